@@ -80,9 +80,22 @@ def generate(ctx):
                     is_rise = ((j % 2 == 0) != fp)      # flank starts at a trough
                     (ri if is_rise else de).append(m)
                 cases.append(dict(n=n, pk=pk, tr=tr, ri=ri, de=de)); cnt += 1
+                if mode in ('mid', 'rand') and (pos[0] >= 1 or pos[-1] <= n - 2):
+                    # the supplied cyclepoints START and / or END with a midpoint (a segment cut at its zero-crossings): a rise midpoint before a leading peak
+                    # (a decay midpoint before a leading trough), and the matching kind after the last extremum; the span runs from the first to the last of them
+                    ri2, de2 = list(ri), list(de)
+                    last_is_peak = (pos[-1] in pk)
+                    if pos[0] >= 1 and (mode == 'mid' or pos[-1] > n - 2):
+                        m = (pos[0] - 1) if mode == 'mid' else int(rng.integers(0, pos[0]))
+                        (ri2 if fp else de2).insert(0, m)
+                    if pos[-1] <= n - 2 and (mode == 'mid' or pos[0] < 1 or rng.random() < 0.5):
+                        m = (pos[-1] + 1) if mode == 'mid' else int(rng.integers(pos[-1] + 1, n))
+                        (de2 if last_is_peak else ri2).append(m)
+                    if (ri2, de2) != (ri, de):
+                        cases.append(dict(n=n, pk=pk, tr=tr, ri=ri2, de=de2)); cnt += 1
                 if mode == 'rand':      # only ONE kind of midpoint supplied
                     cases.append(dict(n=n, pk=pk, tr=tr, ri=ri, de=None)); cases.append(dict(n=n, pk=pk, tr=tr, ri=None, de=de)); cnt += 2
-    ctx.notes['exhaustive_scope'] = 'all alternating extrema placements with gaps >= 2 on arrays of length 3..%d x midpoint patterns {none, start, end, middle, random} (%d cases)' % (N, cnt)
+    ctx.notes['exhaustive_scope'] = 'all alternating extrema placements with gaps >= 2 on arrays of length 3..%d x midpoint patterns {none, start, end, middle, random, leading / trailing midpoints outside the outermost extrema} (%d cases)' % (N, cnt)
     from bycycle.cyclepoints import find_extrema, find_zerox
     for i in range(ctx.scale(150, 1500)):
         s = gen.make_signal(ctx.sub_rng(i))
